@@ -500,6 +500,34 @@ func c19FileLen(p *Prog, r *Report) {
 		r.Undecided("C19.a", "fileLen", "", "function fileLen not found")
 		return
 	}
+	// a measure that is certainly not the key's length in bytes (seeded C19-I): runes
+	flInfo := fl.Pkg.TypesInfo
+	runes := ""
+	ast.Inspect(fl.Decl.Body, func(x ast.Node) bool {
+		c, isCall := x.(*ast.CallExpr)
+		if !isCall {
+			return true
+		}
+		if isFunc(flInfo, c, "unicode/utf8", "RuneCountInString") || isFunc(flInfo, c, "unicode/utf8", "RuneCount") {
+			runes = p.pos(c)
+		}
+		if id, isId := c.Fun.(*ast.Ident); isId && id.Name == "len" && len(c.Args) == 1 {
+			if conv, isConv := ast.Unparen(c.Args[0]).(*ast.CallExpr); isConv && len(conv.Args) == 1 {
+				if tv, ok := flInfo.Types[conv.Fun]; ok && tv.IsType() {
+					if sl, ok := tv.Type.Underlying().(*types.Slice); ok {
+						if b, ok := sl.Elem().Underlying().(*types.Basic); ok && b.Kind() == types.Int32 {
+							runes = p.pos(c)
+						}
+					}
+				}
+			}
+		}
+		return true
+	})
+	if runes != "" {
+		r.Viol("C19.a", kFileLen, runes, "fileLen counts the runes of the key, not its bytes: for a key with multi-byte characters the record buffer is shorter than 40+len(Key), the raw key is cut when it is copied in, and the key does not decode to what was encoded")
+		return
+	}
 	// evaluate fileLen abstractly for len(Key) in {0,1,7}
 	ok := true
 	detail := ""
